@@ -460,6 +460,131 @@ pub fn run_part(report: &mut Report, thorough: bool, c11: bool) {
     );
 }
 
+
+/// C11, receive side: the limit the endpoint *enforces* on a stream is the limit it has
+/// *advertised* — whatever the application did in between (reads that slide the window, with or
+/// without a preceding `stop()`). After every such history a frame ending one byte beyond the
+/// largest advertised MAX_STREAM_DATA (or the initial limit) must be answered with
+/// FLOW_CONTROL_ERROR, and a frame ending exactly at it must not be refused for flow control.
+fn advertised_limit_part(report: &mut Report, thorough: bool) {
+    use std::task::{Context, Poll};
+
+    use qbase::frame::ReliableFrame;
+    use qconnection::GuaranteedFrame;
+    use qrecovery::recv::StopSending as _;
+
+    use crate::pipe::Cap;
+
+    let windows: &[u64] = if thorough { &[2, 4, 9, 64] } else { &[4, 9] };
+    let mut evals = 0u64;
+    let mut outcomes: BTreeMap<String, u64> = BTreeMap::new();
+    let mut samples = Vec::new();
+    for &w in windows {
+        for dir in [Dir::Uni, Dir::Bi] {
+            for stop in [false, true] {
+                for sent in 1..=w {
+                    for read_cap in [1usize, 2, 64] {
+                        for reads in 0..=(sent as usize).min(if thorough { 9 } else { 4 }) {
+                            for probe_beyond in [false, true] {
+                                evals += 1;
+                                // (the connection window is out of the way: only the stream limit is judged here)
+                                let local = SideCfg { max_data: 1 << 40, bidi_local: w, bidi_remote: w, uni: w, streams_bidi: 2, streams_uni: 2 };
+                                let cfg = Cfg { client: SideCfg::roomy(), server: local, cap: 1200, demand_concurrency: false, scripts: [vec![], vec![]], read_caps: vec![], max_packets: 0 };
+                                let label = format!("window {w}, {dir:?}, stop={stop}, {sent} byte(s) received, {reads} read(s) of {read_cap}");
+                                let rp = json!({"sub": "recv-side-advertised-limit", "window": w, "dir": format!("{dir:?}"), "stop": stop, "sent": sent, "read_cap": read_cap, "reads": reads, "beyond": probe_beyond});
+                                let r = panics::catch(|| -> Result<(u64, Result<(), Error>), String> {
+                                    let mut ep = Endpoint::new(Role::Server, &cfg);
+                                    let sid = StreamId::new(Role::Client, dir, 0);
+                                    let f = StreamFrame::new(sid, 0, sent as usize);
+                                    ep.peer_stream(f, payload(0, sent as usize)).map_err(|e| format!("legitimate data refused: {e}"))?;
+                                    ep.accept_all().map_err(|e| format!("accept failed: {e}"))?;
+                                    let mut h = (0..ep.handle_count()).find(|&i| ep.handle_sid(i) == sid).map(|i| ep.take_handle(i)).ok_or("stream not offered")?;
+                                    let mut reader = h.reader.take().ok_or("no reader")?;
+                                    if stop {
+                                        reader.stop(9);
+                                    }
+                                    let waker = futures::task::noop_waker();
+                                    let mut cx = Context::from_waker(&waker);
+                                    for _ in 0..reads {
+                                        let mut buf = Cap::new(read_cap);
+                                        match reader.poll_read(&mut cx, &mut buf) {
+                                            Poll::Ready(Ok(())) | Poll::Pending => {}
+                                            Poll::Ready(Err(_)) => break,
+                                        }
+                                    }
+                                    // what has this endpoint told the peer about this stream?
+                                    let mut advertised = w;
+                                    for _ in 0..8 {
+                                        let frames = ep.assemble_frames(1200);
+                                        if frames.is_empty() {
+                                            break;
+                                        }
+                                        for g in frames {
+                                            if let GuaranteedFrame::Reliable(ReliableFrame::StreamCtl(StreamCtlFrame::MaxStreamData(m))) = g {
+                                                if m.stream_id() == sid {
+                                                    advertised = advertised.max(m.max_stream_data());
+                                                }
+                                            }
+                                        }
+                                    }
+                                    // the probe: one byte ending at the advertised limit / one beyond it
+                                    let end = if probe_beyond { advertised + 1 } else { advertised };
+                                    let off = end - 1;
+                                    let res = ep.peer_stream(StreamFrame::new(sid, off, 1), payload(off, 1));
+                                    Ok((advertised, res))
+                                });
+                                let (advertised, res) = match r {
+                                    Err(p) => {
+                                        report.violation(&format!("panic/{}", p.class()), &format!("{label}: panic at {}: {}", p.location, p.message), rp);
+                                        continue;
+                                    }
+                                    Ok(Err(e)) => {
+                                        report.violation("machinery/c11-advertised-limit-setup", &format!("{label}: {e}"), rp);
+                                        continue;
+                                    }
+                                    Ok(Ok(x)) => x,
+                                };
+                                let kind = err_kind(&res);
+                                *outcomes.entry(format!("advertised{}{}:{}→{:?}", if advertised > w { ">" } else { "=" }, "window", if probe_beyond { "beyond" } else { "at" }, kind)).or_default() += 1;
+                                if samples.len() < 3 && advertised > w {
+                                    samples.push(json!({"history": label, "advertised": advertised, "probe_beyond": probe_beyond, "verdict": format!("{kind:?}")}));
+                                }
+                                if probe_beyond && kind != Some(ErrorKind::FlowControl) {
+                                    report.violation(
+                                        "c11/recv/beyond-advertised-stream-limit/not-flow-control-error",
+                                        &format!("{label}: the endpoint has advertised a stream limit of {advertised} at most, yet a STREAM frame ending at {} was answered with {kind:?} instead of FLOW_CONTROL_ERROR", advertised + 1),
+                                        rp,
+                                    );
+                                } else if !probe_beyond && kind == Some(ErrorKind::FlowControl) {
+                                    report.violation(
+                                        "c11/recv/within-advertised-stream-limit/flow-control-error",
+                                        &format!("{label}: a STREAM frame ending exactly at the advertised stream limit {advertised} was answered with FLOW_CONTROL_ERROR"),
+                                        rp,
+                                    );
+                                }
+                            }
+                        }
+                    }
+                }
+            }
+        }
+    }
+    let mut extra = serde_json::Map::new();
+    extra.insert("outcome_classes".into(), json!(outcomes));
+    report.sub(
+        "recv-side-advertised-limit",
+        Coverage {
+            evaluations: evals,
+            distinct_nontrivial: outcomes.len() as u64,
+            exhaustive: true,
+            rule: format!("stream windows {windows:?} × {{uni, bidi}} × {{application called stop() first, not}} × bytes received 1..=window × read buffer {{1,2,64}} × number of reads: the largest MAX_STREAM_DATA this endpoint has put into a frame (or the initial limit) is the limit it enforces — a frame ending one byte beyond it gets FLOW_CONTROL_ERROR, one ending at it does not; distinct = outcome classes"),
+            samples,
+            extra,
+            ..Default::default()
+        },
+    );
+}
+
 pub fn run(args: &Args, c11: bool) -> i32 {
     if args.replay.is_some() {
         println!("replay: peer-frame cases are re-run by `./check {} --only peer`", args.property);
@@ -468,5 +593,8 @@ pub fn run(args: &Args, c11: bool) -> i32 {
     let mut report = Report::new(args, "model_checking");
     report.assume("one real endpoint; frames are delivered through the real FlowControlledDataStreams (hook verif_flow_controlled_streams)");
     run_part(&mut report, args.thorough, c11);
+    if c11 {
+        advertised_limit_part(&mut report, args.thorough);
+    }
     report.finish()
 }
